@@ -1,25 +1,35 @@
 #!/usr/bin/env python3
-"""Run registered checks against a seeded change: apply /verif/seeded/<name>/patch.diff to /repo, run, undo.
-usage: seedrun.py <seedname> <CHECK-ID> [<CHECK-ID>...]   (env VERIF_TIER, VERIF_WORLDS passed through)"""
-import os, subprocess, sys, time
+"""Run checks against a seeded change without disturbing /repo or /verif: a scratch git worktree of /repo gets the patch,
+a snapshot copy of /verif's machinery runs the checks with VERIF_REPO pointing at it, and both are removed afterwards.
+usage: seedrun.py <seedname|clean> <CHECK-ID> [<CHECK-ID>...]   (env VERIF_TIER etc. passed through)
+(The registered commands themselves always run against /repo; `git -C /repo apply` + `git checkout -- .` gives the same result.)"""
+import os, shutil, subprocess, sys, tempfile, time
 name = sys.argv[1]
 checks = sys.argv[2:]
-patch = "/verif/seeded/%s/patch.diff" % name
-if not os.path.exists(patch):
-    patch = "/tmp/seed/%s/%s/patch.diff" % (name[:3], name[3:])
-dirty = subprocess.run("git -C /repo status --porcelain", shell=True, capture_output=True, text=True).stdout.strip()
-assert not dirty, "/repo is dirty: " + dirty
-subprocess.check_call(["git", "-C", "/repo", "apply", patch])
+base = tempfile.mkdtemp(prefix="sr-%s-" % name)
+repo = os.path.join(base, "repo")
+snap = os.path.join(base, "verif")
+subprocess.check_call(["git", "-C", "/repo", "worktree", "add", "-q", "--detach", repo, "HEAD"])
 try:
+    if name != "clean":
+        patch = "/verif/seeded/%s/patch.diff" % name
+        subprocess.check_call(["git", "-C", repo, "apply", patch])
+    os.makedirs(snap)
+    for d in ("tools", "spec", "harness", "bin"):
+        shutil.copytree(os.path.join("/verif", d), os.path.join(snap, d), ignore=shutil.ignore_patterns("__pycache__"))
+    for f in ("known_findings.jsonl",):
+        shutil.copy(os.path.join("/verif", f), snap)
+    env = dict(os.environ, VERIF_REPO=repo, VERIF_SCRATCH=base)
     for c in checks:
         t = time.time()
-        p = subprocess.run(["/verif/bin/check", c, "--tier", os.environ.get("VERIF_TIER", "quick")], capture_output=True, text=True, cwd="/verif")
+        p = subprocess.run([os.path.join(snap, "bin/check"), c, "--tier", os.environ.get("VERIF_TIER", "quick")], capture_output=True, text=True, cwd=snap, env=env)
         lines = [l for l in p.stdout.splitlines() if l.startswith(("VIOLATION", "OK", "KNOWN"))]
-        print("%s on %s: exit %d %.0fs %s" % (c, name, p.returncode, time.time() - t, " ; ".join(lines)[:300]), flush=True)
+        print("%s on %s: exit %d %.0fs %s" % (c, name, p.returncode, time.time() - t, " ; ".join(lines)[:260]), flush=True)
         if p.returncode == 2:
-            print(p.stderr[-1500:])
+            print(p.stderr[-500:])
         elif p.returncode == 1:
             v = [l for l in p.stderr.splitlines() if l.startswith("violation:")]
-            print("   ", (v[0] if v else "")[:400])
+            print("   ", (v[0] if v else p.stderr[-300:])[:420])
 finally:
-    subprocess.check_call("git -C /repo checkout -- . && git -C /repo clean -fdq", shell=True)
+    subprocess.call(["git", "-C", "/repo", "worktree", "remove", "--force", repo])
+    shutil.rmtree(base, ignore_errors=True)
